@@ -81,6 +81,20 @@ def visited_fields(term, method_names):
         if isinstance(s, tuple) and s[:1] == ("call",) and len(s) == 3 and s[1] in ("Iterator::map", "Iterator::flat_map", "Iterator::for_each", "Iterator::filter_map") and len(s[2]) == 2 \
                 and isinstance(s[2][1], tuple) and s[2][1][:1] == ("fn",) and str(s[2][1][1]).split("::")[-1] in method_names:
             out |= fields_of(s[2][0])
+        # .. or called inside a closure on the element: `self.terms.iter().flat_map(|t| t.symbols())`, `guards.iter().fold(init, |acc, g| { acc.extend(g.symbols()); acc })`
+        if isinstance(s, tuple) and s[:1] == ("call",) and len(s) == 3 and s[1] in ("Iterator::map", "Iterator::flat_map", "Iterator::for_each", "Iterator::filter_map", "Iterator::fold") \
+                and len(s[2]) in (2, 3) and isinstance(s[2][-1], tuple) and s[2][-1][:1] == ("closure",):
+            clo = s[2][-1]
+            elems = set(clo[1][-1:]) if s[1] == "Iterator::fold" else set(clo[1])
+            elems = {q_ for n_ in elems for q_ in str(n_).replace("~", "").replace("+", "/").split("/")}
+            hit = False
+            for c_ in sym.subterms(clo[2]):
+                if isinstance(c_, tuple) and c_[:1] == ("call",) and isinstance(c_[1], str) and c_[1].split("::")[-1] in method_names:
+                    for x_ in sym.subterms(c_[2]):
+                        if isinstance(x_, tuple) and ((x_[:1] == ("param",) and x_[1] in elems) or (x_[:1] == ("place",) and str(x_[1]).split(".")[0] in elems)):
+                            hit = True
+            if hit:
+                out |= fields_of(s[2][0])
     return out
 
 
